@@ -32,6 +32,10 @@ pub struct Cursor<
     pos: usize,
     chunk_size: usize,
     len: usize,
+    /// The last refill returned fewer values than the chunk spans: the source skips
+    /// deleted slots, so buffer positions do not map to indices and reads of this
+    /// chunk go through `collect_one_at`.
+    sparse: bool,
     _phantom: PhantomData<I>,
 }
 
@@ -47,6 +51,7 @@ impl<'a, I: VecIndex, T: VecValue, V: ReadableVec<I, T> + ?Sized> Cursor<'a, I, 
             pos: 0,
             chunk_size: READ_CHUNK_SIZE,
             len,
+            sparse: false,
             _phantom: PhantomData,
         }
     }
@@ -80,17 +85,30 @@ impl<'a, I: VecIndex, T: VecValue, V: ReadableVec<I, T> + ?Sized> Cursor<'a, I, 
             return None;
         }
         let local = self.ensure_buffered_at(index)?;
-        Some(self.buf[local].clone())
+        if self.sparse {
+            return self.source.collect_one_at(index);
+        }
+        self.buf.get(local).cloned()
     }
 
     /// Returns the next value and advances position, or `None` if exhausted.
     #[inline]
     #[allow(clippy::should_implement_trait)]
     pub fn next(&mut self) -> Option<T> {
-        let local = self.ensure_buffered_at(self.pos)?;
-        let val = self.buf[local].clone();
-        self.pos += 1;
-        Some(val)
+        loop {
+            let local = self.ensure_buffered_at(self.pos)?;
+            if !self.sparse {
+                let val = self.buf.get(local).cloned();
+                self.pos += 1;
+                return val;
+            }
+            // Deleted slots are skipped, as range reads do.
+            let val = self.source.collect_one_at(self.pos);
+            self.pos += 1;
+            if val.is_some() {
+                return val;
+            }
+        }
     }
 
     /// Folds over the next `n` elements with a monomorphized closure.
@@ -107,6 +125,16 @@ impl<'a, I: VecIndex, T: VecValue, V: ReadableVec<I, T> + ?Sized> Cursor<'a, I, 
         while self.pos < target {
             if self.ensure_buffered_at(self.pos).is_none() {
                 break;
+            }
+            if self.sparse {
+                let chunk_end = (self.buf_start + self.chunk_size).min(target);
+                while self.pos < chunk_end {
+                    if let Some(val) = self.source.collect_one_at(self.pos) {
+                        acc = f(acc, val);
+                    }
+                    self.pos += 1;
+                }
+                continue;
             }
             let local = self.pos - self.buf_start;
             let local_end = (target - self.buf_start).min(self.buf.len());
@@ -136,7 +164,12 @@ impl<'a, I: VecIndex, T: VecValue, V: ReadableVec<I, T> + ?Sized> Cursor<'a, I, 
             return None;
         }
 
-        let buf_end = self.buf_start + self.buf.len();
+        let buf_end = self.buf_start
+            + if self.sparse {
+                self.chunk_size
+            } else {
+                self.buf.len()
+            };
         if at >= self.buf_start && at < buf_end {
             return Some(at - self.buf_start);
         }
@@ -147,11 +180,8 @@ impl<'a, I: VecIndex, T: VecValue, V: ReadableVec<I, T> + ?Sized> Cursor<'a, I, 
         let end = (aligned + self.chunk_size).min(self.len);
         self.buf_start = aligned;
         self.source.read_into_at(aligned, end, &mut self.buf);
+        self.sparse = self.buf.len() != end - aligned;
 
-        if self.buf.is_empty() {
-            None
-        } else {
-            Some(at - aligned)
-        }
+        Some(at - aligned)
     }
 }
